@@ -95,7 +95,8 @@ fn main() {
     let mut shells = all_shells();
     for case_no in 0..n {
         let mut rng = Rng::derive(seed, case_no, 17);
-        let big = rng.chance(1, 50);
+        // (a payload of a megabyte costs ~0.3 s over the JSON bridge: rarer in the long tier)
+        let big = rng.chance(1, if args.thorough() { 600 } else { 50 });
         let job = match rng.below(5) {
             0 => KvJob::Get { key: string(&mut rng, big) },
             1 => KvJob::Set {
